@@ -30,6 +30,7 @@ type rdLabel struct {
 	K     int    `json:"k"`
 	Bytes int    `json:"bytes"`
 	Err   bool   `json:"err"`
+	IErr  bool   `json:"ierr"`
 }
 
 // dirOfSize builds a directory entry whose encoding has exactly n bytes (49 + string bytes).
@@ -48,9 +49,15 @@ func dirOfSize(n, idx int) p9p.Dir {
 		Length: uint64(idx * 3), AccessTime: time.Unix(int64(1000+idx), 0).UTC(), ModTime: time.Unix(int64(2000+idx), 0).UTC()}
 }
 
-func batchIter(dirs []p9p.Dir, cuts []int) p9p.ReadNext {
+// batchIter hands out the listing in the given batches; failAt > 0: its failAt-th call fails (once) without
+// handing anything out (the call after the last batch is the one that reports the end).
+func batchIter(dirs []p9p.Dir, cuts []int, failAt int) p9p.ReadNext {
 	i, b := 0, 0
 	return func(context.Context) ([]p9p.Dir, error) {
+		if failAt > 0 && b+1 == failAt {
+			failAt = 0
+			return nil, p9p.MessageRerror{Ename: "iterator: transient failure"}
+		}
 		if b >= len(cuts) {
 			return nil, nil
 		}
@@ -71,6 +78,7 @@ type rdExec struct {
 	hist    []rdLabel
 	listing []int
 	cuts    []int
+	failb   int
 }
 
 func (x *rdExec) viol(sig, d string) {
@@ -87,6 +95,9 @@ func (x *rdExec) Step(label, from, to json.RawMessage) bool {
 		json.Unmarshal(to, &parts)
 		json.Unmarshal(parts[0], &x.listing)
 		json.Unmarshal(parts[1], &x.cuts)
+		if len(parts) >= 8 {
+			json.Unmarshal(parts[7], &x.failb)
+		}
 		codec := p9p.NewCodec()
 		for i, n := range x.listing {
 			d := dirOfSize(n, i)
@@ -99,12 +110,12 @@ func (x *rdExec) Step(label, from, to json.RawMessage) bool {
 			x.enc = append(x.enc, b)
 		}
 		if x.via == "direct" {
-			rd := p9p.NewReaddir(codec, batchIter(x.dirs, x.cuts))
+			rd := p9p.NewReaddir(codec, batchIter(x.dirs, x.cuts, x.failb))
 			x.read = func(p []byte, off int64) (int, error) { return rd.Read(context.Background(), p, off) }
 		} else {
 			fs := sfs.New()
 			fs.Decide = func(call string, h *sfs.Handle) sfs.Expect { return sfs.Expect{Call: call, Out: "ok", Dir: true} }
-			fs.DirIter = func() p9p.ReadNext { return batchIter(x.dirs, x.cuts) }
+			fs.DirIter = func() p9p.ReadNext { return batchIter(x.dirs, x.cuts, x.failb) }
 			sess := p9p.SFileSys(fs)
 			ctx := context.Background()
 			if _, err := sess.Attach(ctx, 1, p9p.NOFID, "u", "/"); err != nil {
@@ -137,6 +148,15 @@ func (x *rdExec) Step(label, from, to json.RawMessage) bool {
 		}
 		return true
 	}
+	if l.IErr {
+		// the iterator fails during this read: the read reports it; the entries gathered so far count as delivered
+		if err == nil {
+			x.viol("iterator-error-swallowed", fmt.Sprintf("the directory iterator failed during read(count %d) at offset %d, the read reports success with %d bytes", l.C, l.O, n))
+			return false
+		}
+		x.pos += l.K
+		return true
+	}
 	if err != nil {
 		x.viol("read-error", fmt.Sprintf("read of %d bytes at the running offset %d failed: %v", l.C, l.O, err))
 		return false
@@ -161,7 +181,7 @@ func listViaClient(dirs []p9p.Dir, cuts []int, m int, res *hx.Result) {
 	rep := map[string]interface{}{"engine": "readdir", "via": "client", "msize": m, "entries": len(dirs), "batches": cuts}
 	fs := sfs.New()
 	fs.Decide = func(call string, h *sfs.Handle) sfs.Expect { return sfs.Expect{Call: call, Out: "ok", Dir: true} }
-	fs.DirIter = func() p9p.ReadNext { return batchIter(dirs, cuts) }
+	fs.DirIter = func() p9p.ReadNext { return batchIter(dirs, cuts, 0) }
 	cli, srv := gconn.Pair(0)
 	cli.BeforeWrite = func(n int, p []byte) error {
 		if n == 1 && len(p) >= 11 && p[4] == byte(p9p.Tversion) { // rewrite the proposed msize
